@@ -141,6 +141,40 @@ Theorem C08_assignment_int : forall uint64 d c held v,
 Proof. exact assign_int. Qed.
 Print Assumptions C08_assignment_int.
 
+(* declared TYPE: for every converter except bool, a value is accepted only if its Python type is the declared one or a documented
+   coercion of it, the value validate goes on with has the declared type, the declared type itself is always accepted, and a refusal
+   is a TypeError or ValueError.  (type_dispatch: interpreted from each converter's validate on every run, one representative value
+   per Python type; bool applies bool() to anything - known finding.) *)
+Theorem C08_declared_type : forall c t r, c <> CBool ->
+  type_dispatch c t = TyAccept r -> tag_in t (type_allowed c) = true /\ r = type_result c t.
+Proof. exact type_accept_sound. Qed.
+Print Assumptions C08_declared_type.
+
+Theorem C08_declared_type_accepted : forall c t, tag_in t (type_core c) = true -> type_dispatch c t = TyAccept (type_result c t).
+Proof. exact type_core_accepted. Qed.
+Print Assumptions C08_declared_type_accepted.
+
+Theorem C08_type_reject_class : forall c t cls, type_dispatch c t = TyReject cls -> cls = TypeError \/ cls = ValueError.
+Proof. exact type_reject_class. Qed.
+Print Assumptions C08_type_reject_class.
+
+Theorem C08_declared_type_bool_if_fixed : forall t r, bool_accepts_any_type = false ->
+  type_dispatch CBool t = TyAccept r -> tag_in t (type_allowed CBool) = true /\ r = TgBool.
+Proof. exact type_accept_sound_bool_if_fixed. Qed.
+Print Assumptions C08_declared_type_bool_if_fixed.
+
+(* Decimal(precision, scale): accepted declarations are exactly 0 < scale <= precision (scale 0 is refused!) *)
+Theorem C08_decimal_declaration : forall p s, (exists r, dec_init p s = Ok r) <-> 0 < p /\ 0 < s /\ s <= p.
+Proof. exact dec_init_ok_iff. Qed.
+Print Assumptions C08_decimal_declaration.
+
+(* creation, set(), get()/exists()/[] lookups and select/filter keyword arguments validate every value first (call sites scanned) *)
+Theorem C08_entry_points_validate : forall V (validate : V -> result V) v,
+  create_outcome validate v = validate v /\ set_outcome validate v = validate v /\ get_outcome validate v = validate v
+  /\ filter_outcome validate v = validate v.
+Proof. exact routes_validate. Qed.
+Print Assumptions C08_entry_points_validate.
+
 (* non-vacuity: size=16, min=0, max=300 is an accepted declaration, accepts 0 and 300, rejects -1 and 301 *)
 Example C08_nonvacuous :
   exists c, init_of true (mk_int_decl (Some 16) (Some false) (Some 0) (Some 300)) = Ok c
